@@ -439,3 +439,29 @@ pub fn op_elg(a: &[&str]) -> String {
 pub fn g_times(x: &Scalar) -> String {
     hex((x * G).compress().as_bytes())
 }
+
+/// authenticated encryption (C13)
+pub fn op_ae(a: &[&str]) -> String {
+    match a {
+        ["encrypt", key, amount, _seed] => {
+            let (Some(k), Ok(x)) = (unhex(key), amount.parse::<u64>()) else { return "bad-op".into() };
+            let Ok(k) = AeKey::try_from(k.as_slice()) else { return "bad-op".into() };
+            let ct = k.encrypt(x);
+            format!("emit:!some:{} ae dec {} {}", x, key, hex(&ct.to_bytes()))
+        }
+        ["dec", key, ct] => {
+            let (Some(k), Some(c)) = (unhex(key), unhex(ct)) else { return "bad-op".into() };
+            let Ok(k) = AeKey::try_from(k.as_slice()) else { return "bad-op".into() };
+            match AeCiphertext::from_bytes(&c) {
+                None => "none".into(),
+                Some(c) => {
+                    let r1 = c.decrypt(&k);
+                    let r2 = k.decrypt(&c);
+                    if r1 != r2 { return "variant-mismatch".into() }
+                    match r1 { Some(x) => format!("some:{}", x), None => "none".into() }
+                }
+            }
+        }
+        _ => "bad-op".into(),
+    }
+}
